@@ -105,6 +105,23 @@ class FloatV:
         return f"{self.v}:f64"
 
 
+class IFl:
+    """symbolic IEEE double restricted to the exactly representable integers: an Int term e with |e| <= 2^53.
+    IEEE-754 binary64 +, -, * and int<->float casts are exact on this subset whenever the exact result is again in it;
+    every operation that produces an IFl discharges that side condition with the solver under the current path
+    condition (a value that may leave the subset is a translation error -> inconclusive, never a pass)."""
+    __slots__ = ("e",)
+
+    def __init__(self, e):
+        self.e = e
+
+    def __repr__(self):
+        return f"{self.e}:f64(int)"
+
+
+F53 = 1 << 53
+
+
 class Opaque:
     def __init__(self, what):
         self.what = what
@@ -160,9 +177,11 @@ class State:
         self.panic_msg = None
         self.last_ret = None
         self.divs = []  # (A, B, q, r, kind) records of divisions by a symbolic divisor on this path
+        self.loops = {}  # (frame uid, head bb) -> loop-contract bookkeeping (see Engine.at_loop_head)
 
     def clone(self):
         s = State()
+        s.loops = dict(self.loops)
         s.frames = [f.clone() for f in self.frames]
         s.pc = list(self.pc)
         s.panic_msg = self.panic_msg
@@ -177,6 +196,16 @@ class State:
             if f.uid == uid:
                 return f
         return None
+
+
+class LoopContract:
+    """inv(engine, entry_values, current_values, named_locals) -> z3 Bool; `modifies` are source-level variable names"""
+    def __init__(self, fn_suffix, ordinal, modifies, inv, label=None, lemmas=None):
+        # lemmas(engine, entry, cur, named) -> facts added to the path condition at the loop head. They must be instances of
+        # theorems that the obligation establishes separately (see props/c08.py: leap-count recurrence, checked by the solver)
+        self.lemmas = lemmas
+        self.fn_suffix, self.ordinal, self.modifies, self.inv = fn_suffix, ordinal, list(modifies), inv
+        self.label = label or f"{fn_suffix} loop #{ordinal}"
 
 
 class PathEnd:
@@ -296,6 +325,9 @@ class Engine:
         self.div_cache = {}
         self.summaries = {}
         self.exclusions = []  # (fn-name suffix, predicate(eng, st, args) -> cond, finding id)
+        self.loop_contracts = []  # LoopContract objects of the current obligation
+        self.hard_check = None    # callable(pc list, goal) -> (z3.sat|z3.unsat|z3.unknown, model dict|None): external solvers
+        self._loopinfo = {}
         self._bcache = {}
         self._bkeep = []
 
@@ -599,6 +631,246 @@ class Engine:
                 return mk_ordering(ORDERING[parts[-1]])
         return None
 
+    # ------------------------------------------------------------------ loop contracts (inductive invariants)
+    def loop_info(self, item):
+        """natural loops of a MIR body: {head bb: (body bbs, locals assigned in the body)}, heads in bb order"""
+        if id(item) in self._loopinfo:
+            return self._loopinfo[id(item)]
+        item.parse_body()
+        succ = {}
+        for b, (stmts, term) in item.blocks.items():
+            t = re.sub(r"unwind: bb\d+", "", term)
+            succ[b] = [int(x) for x in re.findall(r"\bbb(\d+)\b", t)]
+        heads, color = set(), {}
+        stack = [(0, iter(succ.get(0, [])))]
+        color[0] = 1
+        while stack:
+            b, it = stack[-1]
+            nxt = next(it, None)
+            if nxt is None:
+                color[b] = 2
+                stack.pop()
+                continue
+            if color.get(nxt) == 1:
+                heads.add(nxt)
+            elif nxt not in color:
+                color[nxt] = 1
+                stack.append((nxt, iter(succ.get(nxt, []))))
+        pred = {}
+        for b, ss in succ.items():
+            for x in ss:
+                pred.setdefault(x, []).append(b)
+        def reach(start, edges):
+            seen, todo = {start}, [start]
+            while todo:
+                b = todo.pop()
+                for x in edges.get(b, []):
+                    if x not in seen:
+                        seen.add(x)
+                        todo.append(x)
+            return seen
+        info = {}
+        for h in sorted(heads):
+            body = reach(h, succ) & reach(h, pred)
+            assigned = set()
+            for b in body:
+                stmts, term = item.blocks[b]
+                for s in list(stmts) + [term]:
+                    k = self._find_assign(s)
+                    if k is not None:
+                        m = re.match(r"^\(?\*?\(?_(\d+)", s[:k].strip().lstrip("("))
+                        if m:
+                            assigned.add(int(m.group(1)))
+                    for m in re.finditer(r"&(?:raw )?mut \(?_(\d+)", s):
+                        assigned.add(int(m.group(1)))
+            info[h] = (body, assigned)
+        dbg = {}
+        for line in item.raw:
+            m = re.match(r"^\s*debug (\w+) => _(\d+);$", line)
+            if m:
+                dbg.setdefault(m.group(1), []).append(int(m.group(2)))
+        self._loopinfo[id(item)] = (info, dbg)
+        return info, dbg
+
+    def register_ranges(self, f):
+        """feed top-level conjuncts of the form `v >= k` / `v <= k` (v a variable, k a numeral) to the interval analysis"""
+        if not z3.is_expr(f):
+            return
+        todo = [f]
+        while todo:
+            c = todo.pop()
+            if z3.is_and(c):
+                todo += c.children()
+                continue
+            if z3.is_app(c) and c.decl().kind() in (z3.Z3_OP_GE, z3.Z3_OP_LE):
+                a, b = c.children()
+                if z3.is_const(a) and a.decl().kind() == z3.Z3_OP_UNINTERPRETED and z3.is_int_value(b):
+                    lo, hi = self.var_range.get(str(a), (None, None))
+                    if c.decl().kind() == z3.Z3_OP_GE:
+                        lo = b.as_long() if lo is None else max(lo, b.as_long())
+                    else:
+                        hi = b.as_long() if hi is None else min(hi, b.as_long())
+                    self.var_range[str(a)] = (lo, hi)
+                    self._bcache.clear()
+
+    def loop_contract_at(self, fr):
+        for lc in self.loop_contracts:
+            if fr.item.name.endswith(lc.fn_suffix):
+                info, _ = self.loop_info(fr.item)
+                heads = sorted(info)
+                if lc.ordinal < len(heads) and heads[lc.ordinal] == fr.bb:
+                    return lc
+        return None
+
+    def havoc_like(self, v, cons, hint):
+        if isinstance(v, IntV):
+            x, c = self.new_int(v.ty, hint)
+            cons.append(c)
+            return IntV(v.ty, x)
+        if isinstance(v, (IFl, FloatV)):
+            if isinstance(v, FloatV) and self._fl_int(v) is None:
+                raise TranslationError(f"loop contract: cannot havoc the non-integer float {v}")
+            x = z3.Int(f"{hint}!{next(self.fresh)}")
+            self.var_range[str(x)] = (-F53, F53)
+            cons.append(z3.And(x >= -F53, x <= F53))
+            return IFl(x)
+        if isinstance(v, BoolV):
+            return BoolV(z3.Bool(f"{hint}!{next(self.fresh)}"))
+        if isinstance(v, Agg):
+            return Agg(v.ty, [self.havoc_like(f, cons, hint) for f in v.fields])
+        raise TranslationError(f"loop contract: cannot havoc {v}")
+
+    @staticmethod
+    def val_same(a, b):
+        if a is b:
+            return True
+        if type(a) is not type(b):
+            return False
+        if isinstance(a, (IntV, BoolV, IFl)):
+            return (a.e == b.e) if (is_conc(a.e) and is_conc(b.e)) else (not is_conc(a.e) and not is_conc(b.e) and Z(a.e).eq(Z(b.e)))
+        if isinstance(a, FloatV):
+            return a.v == b.v or (a.v != a.v and b.v != b.v)
+        if isinstance(a, Agg):
+            return len(a.fields) == len(b.fields) and all(Engine.val_same(x, y) for x, y in zip(a.fields, b.fields))
+        if isinstance(a, EnumV):
+            da, db = a.discr, b.discr
+            same_d = (da == db) if (is_conc(da) and is_conc(db)) else (not isinstance(da, Opaque) and not isinstance(db, Opaque) and Z(da).eq(Z(db)))
+            return same_d and len(a.fields) == len(b.fields) and all(Engine.val_same(x, y) for x, y in zip(a.fields, b.fields))
+        if isinstance(a, Ref):
+            return (a.uid, a.local, a.path) == (b.uid, b.local, b.path)
+        return False
+
+    def at_loop_head(self, st, fr, lc, ends):
+        """Hoare rule for a loop with a user-supplied invariant. First arrival: the invariant must hold; the variables the
+        loop modifies are replaced by fresh ones constrained by the invariant (every other local the body assigns is a
+        temporary and is un-initialised, so a read of a stale value is an error, never a silent pass). Execution then
+        continues from this arbitrary loop-head state: paths that leave the loop run on through the rest of the function;
+        paths that come back to the head must re-establish the invariant (one inductive step = every iteration count)
+        and must have left all other state untouched; they end there. Returns True when the path ended."""
+        key = (fr.uid, fr.bb)
+        info, dbg = self.loop_info(fr.item)
+        body, assigned = info[fr.bb]
+        named = lambda: {n: fr.vals.get(l[0]) for n, l in dbg.items() if len(l) == 1}
+        book = st.loops.get(key)
+        if book is None:
+            mod = {}
+            for nm in lc.modifies:
+                cands = [i for i in dbg.get(nm, []) if i in assigned]
+                if len(cands) != 1:
+                    raise TranslationError(f"loop contract {lc.label}: variable `{nm}` -> locals {cands} assigned in the loop")
+                mod[nm] = cands[0]
+            entry = {nm: fr.vals.get(i) for nm, i in mod.items()}
+            if any(v is None for v in entry.values()):
+                raise TranslationError(f"loop contract {lc.label}: modified variable uninitialised at loop entry")
+            inv0 = zsimp(lc.inv(self, entry, entry, named()))
+            if inv0 is not True:
+                r = self.check(z3.Not(Z(inv0)))
+                if r == z3.unknown and self.hard_check is not None:
+                    r, _ = self.hard_check(list(st.pc), z3.Not(Z(inv0)))
+                if r != z3.unsat:
+                    ends.append(PathEnd("loopinv", st, msg=f"{lc.label}: invariant not established on loop entry ({r})"))
+                    return True
+            cons, cur = [], {}
+            for nm, i in mod.items():
+                cur[nm] = self.havoc_like(entry[nm], cons, "h_" + nm)
+                fr.vals[i] = cur[nm]
+            for i in assigned:
+                if i not in mod.values():
+                    fr.vals.pop(i, None)
+            inv = zsimp(lc.inv(self, entry, cur, named()))
+            self.register_ranges(inv)
+            if lc.lemmas is not None:
+                cons = cons + list(lc.lemmas(self, entry, cur, named()))
+            for c in cons + [inv]:
+                c = zsimp(c)
+                if c is not True:
+                    st.pc.append(Z(c))
+                    self.solver.add(Z(c))
+            snap_fr = {i: v for i, v in fr.vals.items() if i not in assigned}
+            snap_others = [(f.uid, dict(f.vals)) for f in st.frames if f.uid != fr.uid]
+            st.loops[key] = {"entry": entry, "mod": mod, "snap": snap_fr, "others": snap_others, "cur": cur}
+            return False
+        # back at the head after one iteration from an arbitrary invariant state
+        cur = {nm: fr.vals.get(i) for nm, i in book["mod"].items()}
+        for i, v in book["snap"].items():
+            if not self.val_same(fr.vals.get(i), v):
+                raise TranslationError(f"loop contract {lc.label}: local _{i} changed in the loop body but is not declared as modified")
+        for uid, vals in book["others"]:
+            f = st.frame(uid)
+            if f is None or any(not self.val_same(f.vals.get(i), v) for i, v in vals.items()):
+                raise TranslationError(f"loop contract {lc.label}: the loop body changed state outside its frame")
+        inv = zsimp(lc.inv(self, book["entry"], cur, named()))
+        if inv is True:
+            ends.append(PathEnd("loopstep", st))
+            return True
+        self.queries += 1
+        t = time.time()
+        self.solver.push()
+        self.solver.add(z3.Not(Z(inv)))
+        r = self.solver.check()
+        model = None
+        if r == z3.sat:
+            # prefer a witness close to the loop's entry state (cheap to replay by bounded unrolling)
+            def flat(v):
+                if isinstance(v, (IntV, IFl)):
+                    return [v.e]
+                if isinstance(v, Agg):
+                    return sum((flat(f) for f in v.fields), [])
+                return []
+            pairs = []
+            for nm in book["mod"]:
+                pairs += [(a, b) for a, b in zip(flat(book["cur"][nm]), flat(book["entry"][nm])) if not is_conc(a)]
+            for B in (64, 1024, 16384, 262144):
+                self.solver.push()
+                for a, b in pairs:
+                    self.solver.add(Z(a) - Z(b) <= B, Z(b) - Z(a) <= B)
+                r2 = self.solver.check()
+                if r2 == z3.sat:
+                    m = self.solver.model()
+                    model = {str(d): m[d].as_long() for d in m.decls() if d.arity() == 0 and z3.is_int_value(m[d])}
+                self.solver.pop()
+                if model is not None:
+                    break
+            if model is None and self.solver.check() == z3.sat:
+                m = self.solver.model()
+                model = {str(d): m[d].as_long() for d in m.decls() if d.arity() == 0 and z3.is_int_value(m[d])}
+        self.solver.pop()
+        self.solver_s += time.time() - t
+        if r == z3.unknown and self.hard_check is not None:
+            # in-process z3 gave up within its budget: external solver portfolio with hard limits
+            t = time.time()
+            r, model = self.hard_check(list(st.pc), z3.Not(Z(inv)))
+            self.queries += 1
+            self.solver_s += time.time() - t
+        if r == z3.unsat:
+            ends.append(PathEnd("loopstep", st))
+        else:
+            e = PathEnd("loopinv", st, msg=f"{lc.label}: invariant not preserved by one iteration ({r})")
+            e.model = model
+            e.cur0 = book["cur"]
+            ends.append(e)
+        return True
+
     # ------------------------------------------------------------------ places
     def resolve(self, st, frame, place_text):
         local, path, _ty = parse_place(place_text)
@@ -698,6 +970,12 @@ class Engine:
             fm = re.match(r"^(-?[\d.]+(?:[eE][-+]?\d+)?)_?f64$", c)
             if fm:
                 return FloatV(float(fm.group(1)))
+            fc = re.match(r"^(?:core|std)::f64::<impl f64>::(MAX|MIN|INFINITY|NEG_INFINITY|NAN|EPSILON|MIN_POSITIVE)$", c)
+            if fc:
+                import sys as _sys
+                return FloatV({"MAX": _sys.float_info.max, "MIN": -_sys.float_info.max, "INFINITY": float("inf"),
+                               "NEG_INFINITY": float("-inf"), "NAN": float("nan"), "EPSILON": _sys.float_info.epsilon,
+                               "MIN_POSITIVE": _sys.float_info.min}[fc.group(1)])
             if re.match(r"^-?[\d.]+(e-?\d+)?_?f(32|64)$", c) or c in ("f64::EPSILON",) or c.startswith('"') or c.startswith("b\""):
                 return Opaque(c)
             if c.startswith("{") or c.startswith("<") and "promoted" not in c and " as " in c and "::" not in c.split(">")[-1]:
@@ -739,7 +1017,96 @@ class Engine:
                 ty = re.sub(r"\b%s\b" % k, v, ty)
         return ty
 
+    # ------------------------------------------------------------------ floats (exact-integer subset + concrete)
+    def mk_float(self, st, e, what="float"):
+        """an integer-valued double from the Int term e; proves |e| <= 2^53 under the path condition"""
+        if is_conc(e):
+            if abs(e) > F53:
+                raise TranslationError(f"{what}: concrete integer {e} beyond 2^53 in an exact float operation")
+            return FloatV(float(e))
+        if not self.surely_in(e, -F53, F53):
+            r = self.check(z3.Or(e < -F53, e > F53))
+            if r != z3.unsat:
+                raise TranslationError(f"{what}: symbolic float may leave the exactly representable integers (|v| <= 2^53): {r}")
+        return IFl(e)
+
+    @staticmethod
+    def _fl_int(v):
+        """Int term / python int of an integer-valued float operand, or None"""
+        if isinstance(v, IFl):
+            return v.e
+        if isinstance(v, FloatV) and v.v == v.v and abs(v.v) != float("inf") and v.v == int(v.v) and abs(v.v) <= F53:
+            return int(v.v)
+        return None
+
+    def float_binop(self, st, op, a, b):
+        import math
+        from fractions import Fraction
+        if isinstance(a, FloatV) and isinstance(b, FloatV):
+            x, y = a.v, b.v
+            if op in ("Add", "Sub", "Mul"):
+                return FloatV({"Add": x + y, "Sub": x - y, "Mul": x * y}[op])
+            if op == "Div":
+                if y == 0.0:
+                    if x == 0.0 or x != x:
+                        return FloatV(float("nan"))
+                    neg = (math.copysign(1.0, x) < 0) != (math.copysign(1.0, y) < 0)
+                    return FloatV(float("-inf") if neg else float("inf"))
+                return FloatV(x / y)
+            if op == "Rem":
+                return FloatV(math.fmod(x, y) if y != 0.0 and abs(x) != float("inf") else float("nan"))
+            cmpo = {"Eq": x == y, "Ne": x != y, "Lt": x < y, "Le": x <= y, "Gt": x > y, "Ge": x >= y}
+            if op in cmpo:
+                return BoolV(cmpo[op])
+            raise TranslationError(f"float binop {op}")
+        cmpops = ("Eq", "Ne", "Lt", "Le", "Gt", "Ge")
+        A, B = self._fl_int(a), self._fl_int(b)
+        if op in cmpops:
+            if A is not None and B is not None:
+                fn = {"Eq": lambda x, y: x == y, "Ne": lambda x, y: x != y, "Lt": lambda x, y: x < y,
+                      "Le": lambda x, y: x <= y, "Gt": lambda x, y: x > y, "Ge": lambda x, y: x >= y}[op]
+                return BoolV(zsimp(fn(Z(A), Z(B))))
+            # integer-valued symbolic against an arbitrary concrete double: exact comparison of reals
+            sym, con, flip = (a, b, False) if isinstance(a, IFl) else (b, a, True)
+            if not (isinstance(sym, IFl) and isinstance(con, FloatV)):
+                raise TranslationError(f"float comparison {op} on {a}, {b}")
+            c = con.v
+            if flip:
+                op = {"Lt": "Gt", "Le": "Ge", "Gt": "Lt", "Ge": "Le", "Eq": "Eq", "Ne": "Ne"}[op]
+            if c != c:
+                return BoolV(op == "Ne")
+            if c == float("inf"):
+                return BoolV(op in ("Lt", "Le", "Ne"))
+            if c == float("-inf"):
+                return BoolV(op in ("Gt", "Ge", "Ne"))
+            fr = Fraction(c)
+            fl, ce = math.floor(fr), math.ceil(fr)
+            e = sym.e
+            lo_b, hi_b = self.bounds(e)
+            if lo_b is not None and hi_b is not None:
+                # decided by the interval of the symbolic operand alone?
+                ev = lambda x: {"Lt": x < ce, "Le": x <= fl, "Gt": x > fl, "Ge": x >= ce,
+                                "Eq": (x == fl) if fl == ce else False, "Ne": (x != fl) if fl == ce else True}[op]
+                if op in ("Lt", "Le", "Gt", "Ge") and ev(lo_b) == ev(hi_b):
+                    return BoolV(ev(lo_b))
+            r = {"Lt": e < ce, "Le": e <= fl, "Gt": e > fl, "Ge": e >= ce,
+                 "Eq": (e == fl) if fl == ce else False, "Ne": (e != fl) if fl == ce else True}[op]
+            return BoolV(r if isinstance(r, bool) else zsimp(r))
+        if A is None or B is None:
+            raise TranslationError(f"float {op}: operand outside the exact-integer subset: {a}, {b}")
+        if op in ("Add", "Sub"):
+            return self.mk_float(st, zsimp(Z(A) + Z(B)) if op == "Add" else zsimp(Z(A) - Z(B)), op)
+        if op == "Mul":
+            return self.mk_float(st, self.mul(A, B) if not (is_conc(A) and is_conc(B)) else A * B, op)
+        if op == "Rem" and is_conc(B) and B != 0:
+            # fmod is exact in IEEE-754; for integers it is the truncating remainder
+            q, r = self.tdiv(st, A, B)
+            return self.mk_float(st, r, op)
+        raise TranslationError(f"float {op} on symbolic operands (only +, -, *, %, comparisons are exact on integers)")
+
     def binop(self, st, op, a, b):
+        if isinstance(a, (FloatV, IFl)) or isinstance(b, (FloatV, IFl)):
+            return self.float_binop(st, op, a, b)
         if isinstance(a, BoolV) and isinstance(b, BoolV):
             A, B = a.e, b.e
             if op == "Eq":
@@ -823,7 +1190,7 @@ class Engine:
     def eval_rvalue(self, st, frame, rv, dest_ty=None):
         rv = rv.strip()
         if rv.startswith(("copy ", "move ", "const ")):
-            m = re.match(r"^(.*) as ([\w:<>]+) \((\w+)(?:\(.*\))?\)$", rv)
+            m = re.match(r"^(.*?) as ([\w:<>&\[\]' ;]+?) \((\w+)(?:\(.*\))?\)$", rv)
             if m:
                 v = self.eval_operand_text(st, frame, m.group(1))
                 kind, to = m.group(3), m.group(2)
@@ -837,6 +1204,13 @@ class Engine:
                     return IntV(to, max(lo, min(hi, int(x))))   # `as` saturates, truncates toward zero
                 if kind == "IntToFloat" and isinstance(v, IntV) and is_conc(v.e):
                     return FloatV(float(v.e))
+                if kind == "IntToFloat" and isinstance(v, IntV):
+                    return self.mk_float(st, v.e, "int as f64")
+                if kind == "FloatToInt" and isinstance(v, IFl) and to in INT_TYPES:
+                    lo, hi, _, _ = INT_TYPES[to]   # `as` saturates; the value is already an integer
+                    if self.surely_in(v.e, lo, hi):
+                        return IntV(to, v.e)
+                    return IntV(to, zsimp(z3.If(v.e < lo, lo, z3.If(v.e > hi, hi, v.e))))
                 if kind in ("Transmute", "PtrToPtr") or kind.startswith("PointerCoercion"):
                     return v
                 raise TranslationError(f"cast kind {kind}: {rv}")
@@ -855,6 +1229,10 @@ class Engine:
             raise TranslationError("Not on symbolic integer")
         if m and m.group(1) == "Neg":
             v = self.eval_operand_text(st, frame, m.group(2))
+            if isinstance(v, FloatV):
+                return FloatV(-v.v)
+            if isinstance(v, IFl):
+                return IFl(zsimp(-v.e))
             return IntV(v.ty, self.wrap(-v.e if is_conc(v.e) else zsimp(-v.e), v.ty))
         if m and m.group(1) == "discriminant":
             v = self.load_loc(st, self.resolve(st, frame, m.group(2)))
@@ -960,6 +1338,10 @@ class Engine:
             if fr.bb == -3:
                 ends.append(PathEnd("excluded", st, msg=st.panic_msg))
                 return
+            if self.loop_contracts:
+                lc = self.loop_contract_at(fr)
+                if lc is not None and self.at_loop_head(st, fr, lc, ends):
+                    return
             key = (fr.uid, fr.bb)
             visits[key] = visits.get(key, 0) + 1
             stmts, term = fr.item.blocks[fr.bb]
@@ -1175,6 +1557,8 @@ class Engine:
         for suffix, fn in self.summaries.items():
             if callee.endswith(suffix):
                 outs = fn(self, st, args)
+                if outs is None:
+                    continue   # the summary does not apply to these argument types: execute the real body
                 return ("fork", [(c, (lambda s2, v=v: finish(s2, v))) for c, v in outs])
         # 1. crate-local function?
         item, subst = self.resolve_fn(callee, argtys, args)
